@@ -30,6 +30,18 @@ func RegisterSafeType(t reflect.Type) {
 // considered safe, even when they don't implement SafeValue.
 var safeTypeRegistry = map[reflect.Type]bool{}
 
+// isRegisteredSafe tells whether a value reached by reflection, of
+// type t, is of a registered safe type. The registry is keyed by
+// concrete types: for an interface value (an element of a
+// []interface{}, a map value...) what counts is the type of the value
+// it holds, which is the one whose methods get called.
+func isRegisteredSafe(value reflect.Value, t reflect.Type) bool {
+	if value.Kind() == reflect.Interface && !value.IsNil() {
+		t = value.Elem().Type()
+	}
+	return safeTypeRegistry[t]
+}
+
 func isSafeValue(a interface{}) bool {
 	return safeTypeRegistry[reflect.TypeOf(a)]
 }
